@@ -35,7 +35,7 @@ def parse_example(text, lineno=1):
     return ex
 
 
-def run_example(ex):
+def run_example(ex, verbose=0):
     """runs a DocTest; returns dict(T, logged, ns, summary, error)"""
     ns = NS()
     ns, T = gd.make_namespace(ns)
@@ -47,7 +47,7 @@ def run_example(ex):
     with warnings.catch_warnings():
         warnings.simplefilter('ignore')
         try:
-            summary = ex.run(on_error='return', verbose=0)
+            summary = ex.run(on_error='return', verbose=verbose)
         except BaseException as e:   # noqa
             err = '%s: %s' % (type(e).__name__, e)
     saved = ns.saved if ns.saved is not None else dict(ns)
@@ -122,6 +122,37 @@ def expectations(prog, text, line_of, stmt_first, ex, run, ref=None):
     return why
 
 
+def run_schedule(i, prog):
+    """which runs a generated doctest gets: list of (verbosity, on a FRESH DocTest object?). Every verbosity of the
+    front ends occurs (0 silent, 1 names, 2 = plugin default, 3 = CLI default: from 2 on the output is shown while it
+    is captured); a doctest without any want is run at all four; every third doctest is run again on the SAME object"""
+    if not any(s.want is not None for s in prog.stmts):
+        return [(v, (i % 2 == 0) or k == 0) for k, v in enumerate([3, 0, 2, 1])]
+    sched = [(i % 4, True)]
+    if i % 3 == 0:
+        sched.append(((i + 2) % 4, False))
+        sched.append(((i + 1) % 4, False))
+    return sched
+
+
+def check_runs(prog, text, line_of, stmt_first, schedule):
+    """the expectations at every run of the schedule; returns (reasons, last run, DocTest)"""
+    why = []
+    ex = None
+    run = None
+    for n, (verbose, fresh) in enumerate(schedule):
+        if fresh or ex is None:
+            ex = parse_example(text)
+            if ex is None:
+                return ['parse_docstr_examples did not give exactly one example'], None, None
+        run = run_example(ex, verbose)
+        w = expectations(prog, text, line_of, stmt_first, ex, run)
+        if w:
+            why.append('run %d (verbose=%d, %s DocTest object): %s' % (n + 1, verbose, 'fresh' if fresh or n == 0 else 'the SAME', '; '.join(w)))
+            break
+    return why, run, ex
+
+
 def run_programs(progs, do_run=True):
     """worker: model parse vs real parse, expectations; returns the usual shard result"""
     from .. import driver
@@ -129,9 +160,10 @@ def run_programs(progs, do_run=True):
     rendered = [p.render() for p in progs]
     texts = [r[0] for r in rendered]
     model = parsercorr.model_parse(texts, lambda ls: driver.run_lines(ls, jobs=1))
-    for prog, (text, line_of, stmt_first), m in zip(progs, rendered, model):
+    for pi, (prog, (text, line_of, stmt_first), m) in enumerate(zip(progs, rendered, model)):
         out['n'] += 1
-        inp = {'text': text, 'program': prog.describe()}
+        schedule = run_schedule(pi, prog)
+        inp = {'text': text, 'program': prog.describe(), 'runs': schedule}
         real, _parts = parsercorr.real_parse(text)
         m = parsercorr.normalize_error(m)
         real = parsercorr.normalize_error(real)
@@ -149,8 +181,11 @@ def run_programs(progs, do_run=True):
             tag = 'parts:%d' % min(nparts, 6)
             if nparts > 1:
                 out['nontrivial'].add(hash(text))
-            run = run_example(ex) if do_run else None
-            why = expectations(prog, text, line_of, stmt_first, ex, run)
+            if do_run:
+                why, run, _ex = check_runs(prog, text, line_of, stmt_first, schedule)
+            else:
+                run = None
+                why = expectations(prog, text, line_of, stmt_first, ex, None)
             if why:
                 out['exp'].append((inp, 'behaves as the plain program', {'T': run and run['T'], 'exc': run and run['exc']}, '; '.join(why)[:1500]))
         else:
